@@ -53,8 +53,9 @@ def run_all(scn, reflog, EoN):
     nodes = list(range(1, n + 1))
     G = build(scn)
     I0 = [u for u in nodes if scn["init"][u - 1] == "I"]
-    tmin, tmax = float(scn["tmin"]), float(scn["tmax"])
-    want = [[float(e[0]), e[1], e[2], e[3]] for e in reflog]
+    sh = float(scn.get("shift", 0))
+    tmin, tmax = float(scn["tmin"]) - sh, float(scn["tmax"]) - sh
+    want = [[float(e[0]) - sh, e[1], e[2], e[3]] for e in reflog]
     kw = dict(initial_infecteds=list(I0), tmin=tmin, tmax=tmax)
     for iface in ("separate", "joint"):
         tt, rt, jt = make_fxns(scn)
